@@ -448,6 +448,6 @@ func c17Parent(prop, tier string) int {
 
 func init() {
 	Registry["C17"] = &Check{Level: "model_checking", Worker: c17Worker, Parent: c17Parent, QuickBudget: 90 * time.Second, ThoroughBudget: 15 * time.Minute,
-		Rule: "(part 2, deciding determinism over schedules) the real ScanRepositoryUsingGraph, CollectReferences, obj_iter.go, batch_obj_iter.go, ref_iter.go and the verbatim go-pipe pipeline/function/scanner code, mechanically rewritten from their current text so that every mutex, atomic, channel operation, select, close, context cancellation, go statement and pipe read/write is a scheduling point; threads: main, the two feeder goroutines, every pipeline stage goroutine and the model git processes; ALL schedules with at most 2 (quick; 1 for the fault bodies) / 3 (thorough) deviations from the default schedule for 3 fault-free bodies (whole records; 7-byte writes with per-record flushing; 1030 blobs with two equal maxima, bound 1) and 6 single-fault bodies; oracle: every schedule yields the same HistorySize JSON (numbers = oracle, same cited objects and descriptions), no deadlock, no panic, and with a fault an error in every schedule. (part 1, read-only) real binary + real git: 3 repositories (one with root trees above 64 kiB in consecutive commits) x 7 argument vectors (one with three ROOT arguments) x 8 addressing modes: snapshot (mode, size, mtime-ns, SHA-256) of git dir, work tree, index and linked worktree identical before and after; 6 repeated runs with GOMAXPROCS 1..16 give byte-identical stdout; thorough additionally traces the run with strace -f and rejects any successful write-type system call on a path inside the repository; the git commands issued (model git log) stay within the read-only plumbing whitelist; auxiliary: 3 free-running runs per case of a -race build (a report is a violation, silence is not evidence). states = distinct observations over schedules; transitions = scheduling steps",
+		Rule:        "(part 2, deciding determinism over schedules) the real ScanRepositoryUsingGraph, CollectReferences, obj_iter.go, batch_obj_iter.go, ref_iter.go and the verbatim go-pipe pipeline/function/scanner code, mechanically rewritten from their current text so that every mutex, atomic, channel operation, select, close, context cancellation, go statement and pipe read/write is a scheduling point; threads: main, the two feeder goroutines, every pipeline stage goroutine and the model git processes; ALL schedules with at most 2 (quick; 1 for the fault bodies) / 3 (thorough) deviations from the default schedule for 3 fault-free bodies (whole records; 7-byte writes with per-record flushing; 1030 blobs with two equal maxima, bound 1) and 6 single-fault bodies; oracle: every schedule yields the same HistorySize JSON (numbers = oracle, same cited objects and descriptions), no deadlock, no panic, and with a fault an error in every schedule. (part 1, read-only) real binary + real git: 3 repositories (one with root trees above 64 kiB in consecutive commits) x 7 argument vectors (one with three ROOT arguments) x 8 addressing modes: snapshot (mode, size, mtime-ns, SHA-256) of git dir, work tree, index and linked worktree identical before and after; 6 repeated runs with GOMAXPROCS 1..16 give byte-identical stdout; thorough additionally traces the run with strace -f and rejects any successful write-type system call on a path inside the repository; the git commands issued (model git log) stay within the read-only plumbing whitelist; auxiliary: 3 free-running runs per case of a -race build (a report is a violation, silence is not evidence). states = distinct observations over schedules; transitions = scheduling steps",
 		Assumptions: []string{"race-freedom is not decided by schedule enumeration (scheduling points sit at synchronisation operations); repeated free-running runs are sampling and are reported as such", "the model git processes are threads whose only interaction is through their pipes"}}
 }
